@@ -358,7 +358,13 @@ pub fn random_session(ctx: &mut Ctx, r: &mut Rng, cache: CacheMode) -> (Session,
     let rounds = 1 + r.below(4);
     let big = r.chance(1, 12);
     let mut tag = 1u32;
+    let early_reopen = r.chance(1, 4);
     let res = (|| -> Result<(), Fail> {
+        if early_reopen {
+            // the replica is created, closed and reopened before it has seen any proof
+            sess.reopen_replica(ctx)?;
+            ctx.count("replica_reopened_while_empty");
+        }
         for _ in 0..rounds {
             // writer grows
             let mut wops = vec![];
